@@ -53,7 +53,37 @@ def c07(cx):
                 what="registration attempts (wrong signer, altered key, replay, after restart, concurrent batches) and who is honoured afterwards")
 
 
-PLANS = {"C01": c01, "C02": c02, "C06": c06, "C07": c07}
+def c03(cx):
+    cx.assumptions += ["signatures abstract; the statistics signature is checked with the implementation's verifier over the harness's "
+                       "reference encoding of the record (server key read from server.keys)",
+                       "impact rates are opaque bit patterns taken from the trace (test build derives them from the wall clock)"]
+    q = cx.tier == QUICK
+    cx.mc("MC_Rotate", "MC_Rotate.cfg", {"Defects": "{}", "MaxNow": 8 if q else 10, "MaxReports": 1 if q else 2},
+          note="2 devices, reports, ban, clock jumps 1/week/window+1/5 weeks, background rotation and catch-up, restarts, "
+               "queries for every week class with/without insert_false_negatives; RotationExact asserted pointwise")
+    r = cx.drv_ok("rotate", ["--only", "directed"])
+    cx.validate("Trace_Server", "Trace_C03.cfg", r["trace"], what="directed history + dense archived week")
+    r = cx.drv_ok("rotate", ["--only", "random"])
+    cx.validate("Trace_Server", "Trace_C03.cfg", r["trace"], what="random histories")
+
+
+def c04(cx):
+    cx.assumptions += ["signatures abstract", "authorized-server list and migration orders are not persisted (excluded by the property)",
+                       "live impact rates are volatile: start-up resets them (compared only once archived)"]
+    q = cx.tier == QUICK
+    cx.mc("MC_Rotate", "MC_Persist.cfg", {"Defects": "{}", "MaxNow": 8 if q else 10, "MaxReports": 1 if q else 2, },
+          note="RestartEquiv / StartAlwaysOK evaluated in every state of the rotation model (a restart is possible after every prefix)")
+    cx.mc("MC_Equip", "MC_Persist_Equip.cfg", {"Defects": "{}", "MaxAuths": 3, "MaxReports": 1 if q else 2},
+          note="RestartEquiv / StartAlwaysOK in every state of the equipment model (conflicts, reused keys, banned ids with reports)")
+    r = cx.drv_ok("rotate", ["--only", "everyrestart"])
+    cx.validate("Trace_Server", "Trace_C04.cfg", r["trace"], what="restart (once or twice) after every operation")
+    r = cx.drv_ok("rotate", ["--only", "random"])
+    cx.validate("Trace_Server", "Trace_C04.cfg", r["trace"], what="random histories with restarts needing 0/1/several catch-up rotations")
+    r = cx.drv_ok("equip", ["--only", "seq"])
+    cx.validate("Trace_Server", "Trace_C04.cfg", r["trace"], what="authorization/ban sequences with restarts")
+
+
+PLANS = {"C01": c01, "C02": c02, "C03": c03, "C04": c04, "C06": c06, "C07": c07}
 
 
 def replay(cx, path):
